@@ -1,5 +1,6 @@
 mod alloc;
 mod auth;
+mod autoalloc;
 mod cluster;
 mod journal;
 mod panics;
@@ -19,6 +20,7 @@ fn main() {
         "alloc" => alloc::main(&args[2..]),
         "auth" => auth::main(&args[2..]),
         "stream" => stream::main(&args[2..]),
+        "autoalloc" => autoalloc::main(&args[2..]),
         _ => {
             eprintln!("unknown command {}", args[1]);
             2
